@@ -17,6 +17,7 @@ from contracts.py.common import (view_of, install_validate_summaries, GhostSocke
 from spec import valid_msg as V
 
 ID = "C13"
+CUR = ID          # the property the obligations are generated for (C17 discharges this contract as well)
 ENGINE = "PyVC"
 LEVEL = "proof"
 
@@ -28,7 +29,9 @@ def cases():
     return out
 
 
-def build(run):
+def build(run, prop=None):
+    global CUR
+    CUR = prop or ID
     dm = toolkit("data_msg")
     di = toolkit("data_if")
     E = new_engine()
@@ -49,23 +52,23 @@ def build(run):
         fn = qualname(func)
         n_ret = n_raise = 0
         for p, ctx, out in res:
-            run.add(*path_obligations(run, ID, func, p, case))
+            run.add(*path_obligations(run, CUR, func, p, case))
             if out[0] == "return":
                 n_ret += 1
-                run.add(Obligation(ID, fn, clause, p.pc, ok, kind="post", case=case + ",returns", where=where(func),
+                run.add(Obligation(CUR, fn, clause, p.pc, ok, kind="post", case=case + ",returns", where=where(func),
                                    tag={"cls": cls, "mod": getattr(mod, "name", repr(mod)), "outcome": "return", "func": fn}))
             elif issubclass(out[1].cls, ValueError):
                 n_raise += 1
-                run.add(Obligation(ID, fn, clause, p.pc, z3.Not(ok), kind="post", case=case + ",raises", where=where(func),
+                run.add(Obligation(CUR, fn, clause, p.pc, z3.Not(ok), kind="post", case=case + ",raises", where=where(func),
                                    tag={"cls": cls, "mod": getattr(mod, "name", repr(mod)), "outcome": "ValueError", "func": fn}))
             else:
-                run.add(Obligation(ID, fn, "no_other_exception", p.pc, z3.BoolVal(False), kind="noexc",
+                run.add(Obligation(CUR, fn, "no_other_exception", p.pc, z3.BoolVal(False), kind="noexc",
                                    case=case + "," + out[1].cls.__name__, where=where(func),
                                    tag={"cls": cls, "mod": getattr(mod, "name", repr(mod)), "outcome": out[1].cls.__name__, "func": fn}))
-            run.add(*frame_obligations(ID, fn, p, ctx["self"], ctx["pre"], case, where(func)))
+            run.add(*frame_obligations(CUR, fn, p, ctx["self"], ctx["pre"], case, where(func)))
         # vacuity: both outcomes must be reachable wherever the spec allows both
-        run.add(Cover(ID, fn, "cover_valid", [ok], case=case))
-        run.add(Cover(ID, fn, "cover_invalid", [z3.Not(ok)], case=case))
+        run.add(Cover(CUR, fn, "cover_valid", [ok], case=case))
+        run.add(Cover(CUR, fn, "cover_invalid", [z3.Not(ok)], case=case))
         return n_ret, n_raise
 
     all_summ = install_validate_summaries()
@@ -146,13 +149,13 @@ def build(run):
             return {"self": m, "pre": snapshot(m)}
         for p, ctx, out in run_paths(E, setup, lambda E, ctx: E.call(dh, [ctx["self"]])):
             if out[0] == "raise":
-                run.add(Obligation(ID, qualname(dh), "never_raises", p.pc, z3.BoolVal(False), kind="noexc",
+                run.add(Obligation(CUR, qualname(dh), "never_raises", p.pc, z3.BoolVal(False), kind="noexc",
                                    case=case + "," + out[1].cls.__name__, where=where(dh),
                                    tag={"cls": cls, "mod": getattr(mod, "name", repr(mod)), "func": qualname(dh), "outcome": out[1].cls.__name__}))
             else:
-                run.add(Obligation(ID, qualname(dh), "returns_str", p.pc, z3.BoolVal(isinstance(out[1], (str, FmtStr))), kind="post",
+                run.add(Obligation(CUR, qualname(dh), "returns_str", p.pc, z3.BoolVal(isinstance(out[1], (str, FmtStr))), kind="post",
                                    case=case, where=where(dh), tag={"cls": cls, "mod": getattr(mod, "name", repr(mod)), "func": qualname(dh)}))
-            run.add(*frame_obligations(ID, qualname(dh), p, ctx["self"], ctx["pre"], case, where(dh)))
+            run.add(*frame_obligations(CUR, qualname(dh), p, ctx["self"], ctx["pre"], case, where(dh)))
     E.summaries = {k: all_summ[k] for k in ("data_msg.Msg.gen_msg", "data_msg.TxMsg.desc_hdr", "data_msg.RxMsg.desc_hdr")}
     for cls, mod, case in cases():
         for legacy in (False, True):
@@ -168,10 +171,10 @@ def build(run):
             ok = V.valid(v)
             cs = "%s,legacy=%s" % (case, legacy)
             for p, ctx, out in run_paths(E, setup, inv):
-                run.add(*path_obligations(run, ID, s, p, cs))
+                run.add(*path_obligations(run, CUR, s, p, cs))
                 tag = {"cls": cls, "mod": getattr(mod, "name", repr(mod)), "func": qualname(s), "legacy": legacy}
                 if out[0] == "raise":
-                    run.add(Obligation(ID, qualname(s), "never_raises", p.pc, z3.BoolVal(False), kind="noexc",
+                    run.add(Obligation(CUR, qualname(s), "never_raises", p.pc, z3.BoolVal(False), kind="noexc",
                                        case=cs + "," + out[1].cls.__name__, where=where(s), tag=dict(tag, outcome=out[1].cls.__name__)))
                     continue
                 sent = out[1]
@@ -181,15 +184,15 @@ def build(run):
                     goal = ok
                 else:
                     goal = z3.BoolVal(False)
-                run.add(Obligation(ID, qualname(s), "one_datagram_iff_valid", p.pc, goal, kind="post",
+                run.add(Obligation(CUR, qualname(s), "one_datagram_iff_valid", p.pc, goal, kind="post",
                                    case=cs + ",sent=%d" % len(sent), where=where(s), tag=dict(tag, outcome="sent=%d" % len(sent))))
                 for (sock, data, addr) in sent:
                     # destination = the link's remote
-                    run.add(Obligation(ID, qualname(s), "datagram_to_remote", p.pc,
+                    run.add(Obligation(CUR, qualname(s), "datagram_to_remote", p.pc,
                                        z3.BoolVal(addr == (ctx["self"].attrs["remote_addr"], ctx["self"].attrs["remote_port"])),
                                        kind="post", case=cs, where=where(s), tag=tag))
-                run.add(*frame_obligations(ID, qualname(s), p, ctx["msg"], ctx["pre"], cs, where(s)))
-            run.add(Cover(ID, qualname(s), "cover_valid", [ok], case=cs))
+                run.add(*frame_obligations(CUR, qualname(s), p, ctx["msg"], ctx["pre"], cs, where(s)))
+            run.add(Cover(CUR, qualname(s), "cover_valid", [ok], case=cs))
     note_engine(run, E)
     run.assume("message fields are int or None; mod_type is a Modulation member, None or a non-Modulation value; "
                "burst is None or a bytearray (Tx) / array('b') (Rx) of any length >= 0")
